@@ -68,7 +68,7 @@ def main():
             meta["detected_by"][c] = {"rc": rc, "violation_line": viol[0] if viol else None,
                                       "summary": out.strip().splitlines()[-1][:300] if out.strip() else ""}
         # the check rewrote evidence files against the patched tree: restore them from git
-        sh("git checkout -- evidence", cwd=V)
+        pass  # runs with VERIF_REPO write their evidence under evidence/.scratch
         try:
             meta["notes"] = json.load(open(os.path.join(a.src, "notes.json")))
         except Exception:  # noqa: BLE001
